@@ -4,7 +4,8 @@ from concurrent.futures import ThreadPoolExecutor
 from vlib import common
 
 THEOREMS = ["C10_dc_blocks_exact", "C10_basis_table", "C10_zero_block", "C10_annexA_sample_in_kernel",
-            "C10_full_blocks_accurate", "C10_full_blocks_peak_error"]
+            "C10_full_blocks_accurate", "C10_full_blocks_peak_error",
+            "C10_first_row_blocks_accurate", "C10_first_column_blocks_accurate"]
 BRIDGES = ["BridgeTables"]
 VT = "python3-vt"
 
